@@ -107,7 +107,8 @@ Inductive ev :=
 | EWrite (t : tid) (ok : bool)
 | ETake (t : tid)
 | ETimer (t : tid) | ECtx (t : tid) | EDisc (t : tid)
-| ENet (m : msg) | EEOF | EPop | ELock | EDeliver | EResume.
+| ENet (m : msg) | EEOF | EPop | ELock | EDeliver | EResume
+| EChunkC (id : Z).      (* Receive read an intermediate ('C') chunk of the message with this request id and loops *)
 
 (* the caller's handler: safeAssign accepts exactly the expected type; a missing body (msg.Response() == nil) is rejected *)
 Definition handler_ok (w : Z) (m : msg) : bool :=
@@ -214,6 +215,14 @@ Definition step (leaky : ver) (s : st) (e : ev) : option st :=
   | EResume =>
       match d s with
       | DWaitRcv => if rcv_locked s then None else Some (set_d s DIdle)
+      | _ => None
+      end
+  | EChunkC _ =>
+      (* the chunk is appended to s.chunks[id] under chunksMu, which is released again, and Receive reads the next
+         chunk: nothing the callers can see changes and the dispatcher is not held up, whether or not anybody still
+         waits for that id (the buffering itself is the subject of the receive-side model) *)
+      match d s with
+      | DIdle => Some s
       | _ => None
       end
   end.
